@@ -44,7 +44,12 @@ def produce(seed, tier, shard, nshards):
                 # for all of them collapses the container (seeded change C15-r4)
                 ("r = x in {1e999 * 0, -(1e999 * 0), 1}\ns = x in {(1e999 * 0, 1), (-(1e999 * 0), 1), 2.5}\n", 0),
                 ("t = (1e999 * 0, -(1e999 * 0), 1e999, -1e999, 0.0, -0.0)\nu = x in {1e999, -1e999, 0.0, 1e999 * 0}\nv = x in {complex(1e999 * 0, 1), 2j}\n", 0),
-                ("w = x in {(1e999 * 0, (1e999 * 0,)), ((1e999 * 0,), 1e999 * 0), -(1e999 * 0)}\n", 0)]
+                ("w = x in {(1e999 * 0, (1e999 * 0,)), ((1e999 * 0,), 1e999 * 0), -(1e999 * 0)}\n", 0),
+                # fields only <=3.9 producers fill: `_additional_line` (with and without `additional_offsets`) and
+                # `_line_offsets_override` on instructions without an operand (seeded changes C15-r5, C12-r5, C08-r5)
+                ("def f(a):\n    return a\n    a = 2\n", 0), ("def f(a):\n    return a\n    a = 2\n\n\n    b = 3\n    c = 4\n", 0),
+                ("x = 1\n" + "\n" * 253 + "class C:\n    pass\n", 0), ("def f(d):\n    while True:\n        if not d: break\n", 0),
+                ("def f(c, xs):\n    for x in xs:\n        if c: g(); return\n", 0), ("x = %d\ny = (%d, -%d)\n" % (2 ** 1024, 10 ** 400, 2 ** 2000), 0)]
     if w.shard == 0:
         for k, (src, opt) in enumerate(FEATURES):
             try:
